@@ -826,6 +826,13 @@ def layer_mode_schedules(ck):
                                   dict(id=3, name="nr_range", params=c06.named([c06.u8(0x7F), c06.u8(0x30), nrc([0x31])], "c"), resp=True)])], gnrs=[])
     layers = [(Ln, [(bytes([0x7F, 0x30, 0x31]), None), (bytes([0x7F, 0x30, 0x10]), None), (bytes([0x7F, 0x30, 0x31]), bytes([0x30, 5])),
                     (bytes([0x7F, 0x30, 0x99]), None), (bytes([0x30, 7]), None)])]
+    # corpus: a layer with a single service and a global negative response; messages only the latter decodes (one
+    # candidate service, nothing to disambiguate -- the result still is the strict one)
+    Lg = dict(services=[dict(id=1, name="svc1", req=dict(id=1, name="rq1", params=c06.named([c06.u8(0x10), u8v], "a"), resp=False),
+                             pos=[dict(id=2, name="pr1", params=c06.named([c06.u8(0x50), u8v], "b"), resp=True)], neg=[])],
+              gnrs=[dict(id=3, name="gn1", params=c06.named([c06.u8(0x7F), u8v, u8v], "g"), resp=True)])
+    layers.append((Lg, [(bytes([0x7F, 0x10, 0x22]), None), (bytes([0x7F, 0x01, 0x02, 0x03]), None), (bytes([0x7F, 0x10, 0x22]), bytes([0x10, 1])),
+                        (bytes([0x50, 1]), None), (bytes([0x10]), None), (bytes([0x7F, 0x10]), None)]))
     for _ in range(12 if quick else 120):
         layers.append((c06.gen_layer(rng), None))
     n = 0
